@@ -20,6 +20,8 @@ CTX = {
     'fresh': ['1 C 10.0.0.1 1111 10.9.9.9 6667'],
     'owed': ['1 C 10.0.0.1 1111 10.9.9.9 6667', '1 P :+x acct pass'],
 }
+# every line of a batch is run in the context one after the other: a reply that the daemon takes as final changes the context for the lines after it;
+# the reply-text shapes therefore also run one per fresh context (see _reply_job)
 BATCH = 96
 
 def line_shapes(tier):
@@ -41,6 +43,21 @@ def line_shapes(tier):
                     out.append(b' ' + base.encode() + b' \n')
                     out.append(base.encode()[:len(base) // 2] + b'\0' + base.encode()[len(base) // 2:] + b'\n')
                     out.append(base.encode() + b'\r')          # CR alone: stays in the buffer, joined with the next line
+    return out
+
+def reply_shapes():
+    out = []
+    # replies and unlinked notices with every boundary form of the reply text (a keyword alone, a keyword and a blank, nothing at all), for the awaited
+    # service with the live tag, for another service and for another tag
+    texts = ['NO', 'NO ', 'NO  ', 'AGAIN', 'AGAIN ', 'MORE', 'MORE ', 'OK', 'OK ', 'OK  ', 'OK a', 'O', 'N', '', ' ', 'NO\tx', 'OKAY', 'NOPE x', 'ok', 'no x', 'MOREOVER', 'AGAINST x',
+             'NO ' + 'r' * 600, 'MORE ' + 'm' * 600]
+    for svc in ('login.svc', 'drone.svc', 'nosuch.svc'):
+        for tag in ('1_1', '1_2', 'zz'):
+            for t in texts:
+                out.append(('-1 X %s %s :%s' % (svc, tag, t)).encode() + b'\n')
+                out.append(('-1 X %s %s %s' % (svc, tag, t)).encode() + b'\n')
+            out.append(('-1 x %s %s' % (svc, tag)).encode() + b'\n')
+            out.append(('-1 x %s %s :' % (svc, tag)).encode() + b'\n')
     return out
 
 def byte_strings(tier):
@@ -76,6 +93,18 @@ def _batch_job(server, item):
         crashes.append((k, status, err[-2500:], 'line'))
         start = k + 1
     return {'ctx': ctxname, 'crashes': crashes, 'n': n_exec, 'lines': lines}
+
+def _reply_job(server, item):
+    """one reply line in a fresh context in which the named service owes client 1 an answer; then a stats request and end of input"""
+    ctxname, line = item
+    ctx = [('L', (l + '\n').encode()) for l in RCTX[ctxname]]
+    res, status, err, ex = server.trace(ctx + [('L', line), ('L', b'-1 ? stats\n'), ('E',)], 0)
+    ok = status == 'ok' and len(res) == len(ctx) + 3
+    return {'ctx': ctxname, 'line': line, 'ok': ok, 'status': status, 'err': err[-2500:]}
+
+RCTX = {'login-owes': ['1 C 10.0.0.1 1111 10.9.9.9 6667', '1 P :+x acct pass'],
+        'drone-owes': ['1 C 10.0.0.1 1111 10.9.9.9 6667', '1 H'],
+        'both-owe-after-junk': ['7 n junkjunkjunk', '1 C 10.0.0.1 1111 10.9.9.9 6667', '1 U user :A Real Name Of Some Length', '1 P :+x acct pass', '1 H']}
 
 def _prefix_job(server, item):
     sid, data, offsets = item
@@ -157,7 +186,11 @@ def _base_job(server, item):
 JUNK = [b'77 N host\n', b'77 D\n', b'77 T\n', b'77 P :x y z\n', b'77 H\n', b'77 u\n', b'1 Z foo\n', b'1 z\n', b'-1 Z\n', b'\n', b'   \n', b'\r\n',
         b'-1 X login.svc zz_1 :OK a\n', b'-1 X nosuch.svc 1_1 :OK a\n', b'-1 X login.svc 1_99 :NO x\n', b'-1 x login.svc 77_1 :gone\n',
         b'-1 X login.svc 1_ :OK a\n', b'-1 X login.svc\n', b'-1 x\n', b'-1 E a b\n', b'-1 M srv 100\n', b'-1 M\n', b'77 C 1.2.3.4\n', b'77 C\n', b'-1 ?\n',
-        b'77 U u\n', b'77 n\n']
+        b'77 U u\n', b'77 n\n',
+        # numbers no 32-bit variable holds: an id 2^32 away from the live client's, ids and numerals beyond 64 bits
+        b'4294967297 D\n', b'4294967297 N evil.example\n', b'-4294967295 D\n', b'99999999999999999999 D\n', b'99999999999999999999 N h\n', b'-99999999999999999999 D\n',
+        b'-1 X login.svc ffffffffffffffffffffffff_1 :OK a\n', b'-1 X login.svc 1_ffffffffffffffffffffffff :NO x\n', b'-1 X login.svc 100000001_1 :NO x\n',
+        b'-1 X login.svc 1_100000001 :NO x\n', b'-1 M srv 99999999999999999999\n']
 
 def main(tier):
     run = common.Run('C08', 'exploration', tier)
@@ -223,6 +256,19 @@ def main(tier):
                 crash_sites[site] += 1
                 run.violation('C08.crash/' + site, '[context %s] the daemon died (%s) on input line %r  (%s)' % (r['ctx'], status, line, site),
                               {'engine': 'E1-trace', 'conf': conf, 'context': CTX[r['ctx']], 'lines': [l.decode('latin-1') for l in r['lines'][:k + 1]], 'stderr': err}, dedup='crash|' + site + '|' + r['ctx'])
+        # ---- reply texts, each in a fresh context where the service owes an answer
+        rs = reply_shapes()
+        nreply = 0
+        for r in tp.imap(_reply_job, [(c, l) for c in RCTX for l in rs], chunksize=8):
+            if 'harness_error' in r:
+                raise common.HarnessError(r['harness_error'])
+            nreply += 1
+            if not r['ok']:
+                site = _site(r['err'])
+                run.violation('C08.crash/' + site, '[context %s] the daemon died (%s) on the reply line %r  (%s)' % (r['ctx'], r['status'], r['line'], site),
+                              {'engine': 'E1-trace', 'conf': conf, 'context': RCTX[r['ctx']], 'lines': [r['line'].decode('latin-1')], 'stderr': r['err']}, dedup='reply|' + site)
+        counts['reply_lines'] = nreply
+        nlines += nreply
         counts['lines_executed'] = nlines
         counts['line_shapes'] = len(shapes); counts['byte_strings'] = len(bstr)
         counts['crash_sites'] = crash_sites
